@@ -63,7 +63,8 @@ IsCase(c) == /\ Len(c) \in 1..P.maxsig
              /\ \A i \in DOMAIN c : /\ c[i] \in Desc
                                     /\ c[i].rel < i
                                     /\ ChainDepth(c, i) <= P.maxchain
-Cases == UNION {{c \in [1..k -> Desc] : IsCase(c)} : k \in 1..P.maxsig}
+(* (an operator with a parameter on purpose: TLC pre-evaluates zero-arity constant definitions) *)
+CasesOfLen(k) == {c \in [1..k -> Desc] : IsCase(c)}
 
 ----------------------------------------------------------------------------
 (* runs: request order, creation order, collection order *)
@@ -90,19 +91,21 @@ Pick(q, w)     == q[1 + (w % Len(q))]
 PermTable      == << SetToSeq(Perms(1)), SetToSeq(Perms(2)), SetToSeq(Perms(3)), SetToSeq(Perms(4)), SetToSeq(Perms(5)) >>
 ASSUME P.maxsig <= 5
 
-SampleDesc(r, o, j, acc) ==
-  LET len  == 1 + (W(r, o + 1) % P.maxbt)
+(* signal j uses the 12 words after offset Off(j).  `related` chains are bounded without *)
+(* recursion: every signal draws a raw level 0..maxchain and may only point to an earlier *)
+(* signal of the level below, so its chain is never longer than its level                  *)
+Off(j)       == 4 + 12 * (j - 1)
+Lev(r, j)    == IF P.maxchain = 0 THEN 0 ELSE W(r, Off(j) + 10) % (P.maxchain + 1)
+Below(r, j)  == SelectSeq(Id(j - 1), LAMBDA t : Lev(r, t) = Lev(r, j) - 1)
+SampleDesc(r, j) ==
+  LET o    == Off(j)
+      len  == 1 + (W(r, o + 1) % P.maxbt)
       bt   == [q \in 1..len |-> <<Pick(P.names, W(r, o + 1 + q)), Pick(P.nums, W(r, o + 4 + q))>>]
       ov   == IF Len(P.ovs) > 0 /\ (P.ovreq \/ W(r, o + 8) % 3 = 0) THEN Pick(P.ovs, W(r, o + 9)) ELSE ""
-      want == IF P.maxchain > 0 /\ j > 1 /\ W(r, o + 10) % 2 = 0 THEN 1 + (W(r, o + 11) % (j - 1)) ELSE 0
-      rel  == IF want > 0 /\ ChainDepth(acc, want) < P.maxchain THEN want ELSE 0
+      rel  == IF Lev(r, j) = 0 \/ Below(r, j) = <<>> THEN 0 ELSE Pick(Below(r, j), W(r, o + 11))
   IN [bt |-> bt, ov |-> ov, rel |-> rel]
 
-RECURSIVE SampleBuild(_, _, _, _)
-SampleBuild(r, k, j, acc) ==
-  IF j > k THEN acc ELSE SampleBuild(r, k, j + 1, Append(acc, SampleDesc(r, 4 + 12 * (j - 1), j, acc)))
-
-SampleCase(r) == SampleBuild(r, 1 + (W(r, 1) % P.maxsig), 1, <<>>)
+SampleCase(r) == [j \in 1..(1 + (W(r, 1) % P.maxsig)) |-> SampleDesc(r, j)]
 
 SampleRun(r, k, o) ==
   LET p   == Pick(PermTable[k], W(r, o + 1))
@@ -118,7 +121,7 @@ vars == <<idx, case>>
 
 InitAll == /\ idx = 0
            /\ PrintT(<<"RUNS", RunTable>>)           \* once, before the enumeration branches
-           /\ case \in Cases
+           /\ \E k \in 1..P.maxsig : case \in CasesOfLen(k)
            /\ PrintT(<<"CASE", case>>)
 
 InitSample == /\ idx \in 1..Len(Rnd)
